@@ -100,7 +100,8 @@ def run(ctx):
     ao_b = prog.body('planner::rules::order::analyze_order')
     if ctx.anchor(R4, 'planner::rules::order::analyze_order', ao_b is not None):
         ctx.functions_analysed.add(ao_b.name)
-        sw = [(i, bl['term']) for i, bl in enumerate(ao_b.blocks) if bl['term']['k'] == 'switch' and bl['term'].get('adt') == 'planner::Expr']
+        sw = [(i, bl['term']) for i, bl in enumerate(ao_b.blocks) if bl['term']['k'] == 'switch' and bl['term'].get('adt') == 'planner::Expr'
+              and (bl['term'].get('on') or {}).get('l') == 2]   # the match on `enode` itself (argument 2), not on a child's node
         if ctx.anchor(R4, 'analyze_order: match on the plan node', sw):
             claimed = set()
             for i, t in sw:
@@ -109,6 +110,13 @@ def run(ctx):
                     if tgt != t.get('otherwise'):
                         claimed.add(names.get(str(v), str(v)))
             ctx.floor(R4, len(claimed), 8, 'operators for which analyze_order claims an order')
+            # a merge join keeps the right input's order only when no unmatched left row is padded in between: Inner, RightOuter
+            mj = merge_join_types(ao_b)
+            ctx.ob(R4, 'analyze_order·MergeJoin·join-types', mj is not None and mj <= {'Inner', 'RightOuter'},
+                   'MergeJoin hands on the right side\'s order for join types ' + (str(sorted(mj)) if mj is not None else 'ALL (no test of the join type)')
+                   + '; only Inner and RightOuter emit their rows in right-key order', [ao_b.loc],
+                   what='analyze_order lets a LEFT / FULL merge join inherit the order of its right input: an ORDER BY on the right key above '
+                        'it is removed although the NULL-padded rows sit between the matched ones')
             for v, foreign in sorted(pass_through_arms(ao_b).items()):
                 ctx.ob(R4, f'analyze_order·{v}·passes-keys-unchanged', not foreign,
                        f'{v}: the arm must hand on its child\'s key list as it is (x(child).clone()); other calls in the arm: {foreign}',
@@ -220,7 +228,8 @@ PASS_THROUGH = ('Proj', 'Filter', 'Window', 'Limit', 'MergeJoin', 'SortAgg', 'Or
 def pass_through_arms(ao_b):
     """for the arms of analyze_order that hand on a key list: calls in the arm other than the accessor closure and Clone"""
     out = {}
-    sw = [(i, bl['term']) for i, bl in enumerate(ao_b.blocks) if bl['term']['k'] == 'switch' and bl['term'].get('adt') == 'planner::Expr']
+    sw = [(i, bl['term']) for i, bl in enumerate(ao_b.blocks) if bl['term']['k'] == 'switch' and bl['term'].get('adt') == 'planner::Expr'
+          and (bl['term'].get('on') or {}).get('l') == 2]
     for i, t in sw:
         names = t.get('variants', {})
         arms = {names.get(str(v), str(v)): tgt for v, tgt in t['targets'] if tgt != t.get('otherwise')}
@@ -230,6 +239,26 @@ def pass_through_arms(ao_b):
             others = {x for vv, x in arms.items() if x != tgt} | ({t['otherwise']} if t.get('otherwise') is not None else set())
             region = ao_b.reachable_from([tgt], avoid=others | {i})
             foreign = sorted({re.sub(r'<[^<>]*>', '', c.fn or '?') for c in ao_b.calls if c.bb in region
-                              and not re.search(r'ops::Fn::call$|clone::Clone::clone$|ops::Deref::deref$', c.fn or '')})
+                              and not re.search(r'ops::Fn::call$|clone::Clone::clone$|ops::Deref::deref$|ops::Index::index$', c.fn or '')})
             out[v] = foreign
     return out
+
+
+def merge_join_types(ao_b):
+    """join types under which the MergeJoin arm of analyze_order claims an order; None = unconditional"""
+    top = [(i, bl['term']) for i, bl in enumerate(ao_b.blocks) if bl['term']['k'] == 'switch' and bl['term'].get('adt') == 'planner::Expr'
+           and (bl['term'].get('on') or {}).get('l') == 2]
+    for i, t in top:
+        names = t.get('variants', {})
+        arms = {names.get(str(v), str(v)): tgt for v, tgt in t['targets']}
+        if 'MergeJoin' not in arms or arms['MergeJoin'] == t.get('otherwise'):
+            continue
+        others = {x for vv, x in arms.items() if x != arms['MergeJoin']} | ({t['otherwise']} if t.get('otherwise') is not None else set())
+        region = ao_b.reachable_from([arms['MergeJoin']], avoid=others | {i})
+        for j in sorted(region):
+            tt = ao_b.blocks[j]['term']
+            if tt['k'] == 'switch' and tt.get('adt') == 'planner::Expr' and (tt.get('on') or {}).get('l') != 2:
+                nm = tt.get('variants', {})
+                return {nm.get(str(v), str(v)) for v, tgt in tt['targets'] if tgt != tt.get('otherwise')}
+        return None
+    return set()
